@@ -5,6 +5,7 @@ Run:  /verif/.venv/bin/python -m crosshair check --report_all --per_condition_ti
 Only `Exception` is ever caught (CrossHair's own control-flow exceptions derive from BaseException).
 """
 import itertools
+import math
 
 from toqito.perms.unique_perms import unique_perms
 
@@ -21,10 +22,20 @@ def _unique_perms_each_rearrangement_once_len4(xs: list[int]) -> list[tuple[int,
 
 def _unique_perms_reachability_twin_len4(xs: list[int]) -> list[tuple[int, ...]]:
     """
-    Reachability twin: a list of length 4 with more than 4 distinct rearrangements must be reachable, i.e. the claim
-    "at most 4 entries" MUST be refuted.
+    Reachability twin: lists of the full length 4 are inside the precondition and reach the body: a list of length
+    3 has at most 6 rearrangements, so the claim "at most 6 entries" MUST be refuted (by a list of length 4).
 
     pre: len(xs) <= 4 and all(0 <= x <= 3 for x in xs)
-    post: len(__return__) <= 4
+    post: len(__return__) <= 6
+    """
+    return list(unique_perms(xs))
+
+
+def _unique_perms_negative_control_wrong_count_len4(xs: list[int]) -> list[tuple[int, ...]]:
+    """
+    Negative control (wrong property, real function): "as many entries as len(xs)!" MUST be refuted.
+
+    pre: len(xs) <= 4 and all(0 <= x <= 3 for x in xs)
+    post: len(__return__) == math.factorial(len(xs))
     """
     return list(unique_perms(xs))
